@@ -444,7 +444,7 @@ def main(report, tier, seed, workers, calibrate=False):
         rungs = [dict(name='full', envs=[None], timeout=40 if tier == 'quick' else 300),
                  dict(name='slices:metric-value-fixed', envs=[sl[0][1], sl[1][1]], timeout=200 if tier == 'quick' else 900),
                  dict(name='slices:metric-jets-fixed|gauge-fixed', envs=[sl[3][1], sl[4][1], sl[5][1]],
-                      timeout=200 if tier == 'quick' else 900)]
+                      timeout=400 if tier == 'quick' else 900)]
         if tier == 'quick':
             rungs = rungs[2:]          # quick: the cheap complementary slices only
         process_jet(report, blk['run'], blk['obs'], rungs, sampler=blk['sampler'], workers=workers,
